@@ -71,10 +71,12 @@ CHECKS = {
         "directory-walk permutation, creation order, reruns) with byte-identity and fresh-interpreter "
         "import oracles",
         "Each generated valid tree is run through the real generator in-process, again with permuted "
-        "os.walk results / reversed creation order / twice into a pre-populated directory, and in a "
-        "subprocess under a drawn PYTHONHASHSEED; outputs must be byte-identical. A fresh interpreter then "
+        "os.walk results / reversed creation order / twice into a pre-populated directory / from the same "
+        "documents in another spelling (CRLF, XML comments, attribute order, quotes, BOM) next to unrelated files, "
+        "by a generator object that has processed an earlier revision before, and in a "
+        "subprocess under a drawn PYTHONHASHSEED (half of them in the plain C locale); outputs must be byte-identical. A fresh interpreter then "
         "imports eolib and checks every declared type (class, __module__, exported from its public "
-        "subpackage and from eolib). Sampled: ~320 trees quick, ~4000 thorough. Two open known findings "
+        "subpackage and from eolib). Sampled: ~480 trees quick, ~4000 thorough. Two open known findings "
         "(import cycles caused by the star-importing package layout) are pinned and excluded by construction.",
         "Trusted: the harness' own naming convention (spec.pascal_to_snake) for expected module paths; "
         "walk orders are simulated; one interpreter (3.12.1).",
@@ -121,7 +123,8 @@ CHECKS = {
         "slices of slices, documented ValueErrors), compared after every operation (value/exception type, "
         "position, remaining, mode of every reader in the pool, bounds) with a cache-free reference reader, under "
         "two sentinel patterns; plus 5,120 / 100,000 Hypothesis histories of up to 50 ops over 0-64 arbitrary "
-        "bytes, and chunked readers over chunks of EVERY length 0..8200 (and around 2^14..2^17). Exhaustive over the "
+        "bytes (slices, slices of slices, readers dropped while others live on), and chunked readers over chunks of "
+        "EVERY length 0..8200 (and around 2^14..2^17). Exhaustive over the "
         "stated bounds, sampled beyond.",
         "Trusted: RefReader (pinned by the repository's reader scripts); the tree walk assumes reader state lives "
         "in the instance __dict__ (cross-checked by from-scratch re-runs).",
@@ -132,7 +135,8 @@ CHECKS = {
         "20k / 400k cases of 1-6 chunks of typed fields written with sanitisation on and joined by break bytes, "
         "read under two drawn plans (under-reads, over-reads with surplus reads, next_chunk): planned reads return "
         "the written values, surplus reads return 0/empty, chunks read under the same per-chunk plan give the same "
-        "results whatever happened to other chunks, no chunk contains 0xFF. Sampled.",
+        "results whatever happened to other chunks, no chunk contains 0xFF; readers over plain bytes, over windows of "
+        "larger buffers and over a memoryview shared with a second short-lived reader. Sampled.",
         "Trusted: the harness' cp1252/sanitisation expectations; tilde positions in encoded strings are masked.",
         "DESIGN.md 5/C06",
     ),
@@ -162,7 +166,8 @@ CHECKS = {
         "interleave/deinterleave permutations observed for every length 0..2048 (quick) / 0..20000 (thorough); "
         "flip_msb on all 256 values; swap_multiples on all divisibility patterns of length <= 12 for nine multiples; "
         "Hypothesis data from drawn run layouts, multiples 0..300 / large / negative, and operation pipelines undone "
-        "by inverse pipelines; fresh interpreters under -O/-OO and with eight threads as first use. Exhaustive over "
+        "by inverse pipelines; buffers of 2^17-1 .. 2^20+1 bytes against the models; fresh interpreters under "
+        "-O/-OO/-W error and with eight threads as first use. Exhaustive over "
         "the stated bounds, sampled beyond.",
         "Trusted: the weave and run-reversal models in the check (from the docstrings; pinned by the repository's "
         "vectors); negative multiple 'rejected' is read as ValueError.",
@@ -186,7 +191,7 @@ CHECKS = {
         "refusal oracle gated by a reference serializer",
         "For generated spec trees, valid objects are changed by one violating edit at a drawn member at any depth "
         "(required None, wrong fixed length, padded too long, beyond length-field limit, integer/ordinal/element at "
-        "or above the limit, wrong-kind case data); where the reference serializer reaches the edit, the generated "
+        "or above the limit, wrong-kind or falsy case data, an element in a zero-length array); where the reference serializer reaches the edit, the generated "
         "serialize must raise SerializationError or ValueError and never return. Sampled: ~2.4k trees / ~13k "
         "refusals quick, ~40k trees thorough.",
         "Trusted: the reference interpreter to decide which edits are reached; constructor-refused objects are skipped.",
@@ -197,7 +202,8 @@ CHECKS = {
         "edits at drawn placements; accept/reject oracle",
         "Each case verifies that the real generator accepts the valid tree and rejects the edited tree (any "
         "exception). The catalogue covers the rules named in the property at top level, inside <chunked>, inside "
-        "switch cases, case-in-chunk and in every file. Sampled: ~4.8k pairs quick, ~64k thorough.",
+        "switch cases, case-in-chunk and in every file, with variants (respelled duplicates, constants after "
+        "optional members, shorter padded literals). Sampled: ~4.8k pairs quick, ~64k thorough.",
         "Trusted: each catalogue edit really violates the named rule (reviewed; only rules named in the statement).",
         "DESIGN.md 5/C17",
     ),
